@@ -54,7 +54,7 @@ def bez_case(ck, c1, c2, grid):
         if list(rv.bpoints()) != z[::-1]:
             return bad('reversed', 'control points', z[::-1], rv.bpoints())
         for u in grid:
-            if abs(rv.point(u) - seg.point(1 - u)) > 1e-12 * size:
+            if not (abs(rv.point(u) - seg.point(1 - u)) <= 1e-12 * size):
                 return bad('reversed', 'reversed().point(%r)' % u, seg.point(1 - u), rv.point(u))
         # cropped for every dyadic pair t0 < t1 (from this t on)
         if 0 <= a <= D:
@@ -63,7 +63,7 @@ def bez_case(ck, c1, c2, grid):
                 cr = seg.cropped(t0, t1)
                 for u in U:
                     exp = seg.point(t0 + u * (t1 - t0))
-                    if abs(cr.point(u) - exp) > 1e-9 * size:
+                    if not (abs(cr.point(u) - exp) <= 1e-9 * size):
                         kind = 'fold-back/self-crossing' if len(set(P1)) < len(P1) or P1 == P2 else 'generic'
                         return bad('cropped', 'cropped(%r, %r).point(%r) = %r' % (t0, t1, u, cr.point(u)), exp, cr.point(u), {'t0': t0, 't1': t1})
                 if type(cr) is not type(seg):
@@ -90,7 +90,7 @@ def arc_case(ck, c, rnd, full):
         if bool(rv.sweep) == bool(arc.sweep) or bool(rv.large_arc) != bool(arc.large_arc):
             return bad('reversed/flags', 'flags of reversed()', (arc.large_arc, not arc.sweep), (rv.large_arc, rv.sweep))
         for u in U:
-            if abs(rv.point(u) - arc.point(1 - u)) > 1e-6 * size:
+            if not (abs(rv.point(u) - arc.point(1 - u)) <= 1e-6 * size):
                 return bad('reversed', 'reversed().point(%r)' % u, arc.point(1 - u), rv.point(u))
         pairs = [(i0, i1) for i0 in range(n) for i1 in range(i0 + 1, n + 1)]
         if not full:
@@ -100,7 +100,7 @@ def arc_case(ck, c, rnd, full):
             cr = arc.cropped(t0, t1)
             for u in U:
                 exp = arc.point(t0 + u * (t1 - t0))
-                if abs(cr.point(u) - exp) > 1e-6 * size:
+                if not (abs(cr.point(u) - exp) <= 1e-6 * size):
                     side = 'over-180' if i1 - i0 > 12 else ('exactly-180' if i1 - i0 == 12 else 'under-180')
                     return bad('cropped/' + side, 'cropped(%d/%d, %d/%d).point(%r) = %r' % (i0, n, i1, n, u, cr.point(u)), exp, cr.point(u))
             if i1 - i0 != 12 and bool(cr.large_arc) != (i1 - i0 > 12):
@@ -108,10 +108,10 @@ def arc_case(ck, c, rnd, full):
         if n >= 2:
             i = n // 2
             L, R = arc.split(i / float(n))
-            if abs(L.end - R.start) > 1e-9 * size or abs(L.end - arc.point(i / float(n))) > 1e-9 * size:
+            if not (abs(L.end - R.start) <= 1e-9 * size) or not (abs(L.end - arc.point(i / float(n))) <= 1e-9 * size):
                 return bad('split', 'pieces do not meet at point(t)', arc.point(i / float(n)), (L.end, R.start))
             for u in U:
-                if abs(L.point(u) - arc.point(u * i / float(n))) > 1e-6 * size or abs(R.point(u) - arc.point(i / float(n) + u * (1 - i / float(n)))) > 1e-6 * size:
+                if not (abs(L.point(u) - arc.point(u * i / float(n))) <= 1e-6 * size) or not (abs(R.point(u) - arc.point(i / float(n) + u * (1 - i / float(n)))) <= 1e-6 * size):
                     return bad('split', 'split pieces are not the sub-arcs', 'sub-arcs', (L, R))
     except Exception as e:      # noqa
         return bad('raises-' + type(e).__name__, 'raised %r' % e, 'value', repr(e))
@@ -147,25 +147,28 @@ def path_case(ck, name, p, closed, T0, T1):
         return bad('raises-' + type(e).__name__, 'raised %r' % e, 'path', repr(e))
     if len(cr) == 0:
         return bad('empty', 'returned an empty path', 'pieces', cr)
-    if abs(cr.start - p.point(T0)) > 1e-9 * size or abs(cr.end - p.point(T1)) > 1e-9 * size:
+    if not (abs(cr.start - p.point(T0)) <= 1e-9 * size) or not (abs(cr.end - p.point(T1)) <= 1e-9 * size):
         rep = 'repeated-segment' if name in ('there-and-back', 'rectangle-twice', 'two-equal-cubics') else 'endpoints'
         return bad(rep, 'starts at %r / ends at %r' % (cr.start, cr.end), (p.point(T0), p.point(T1)), (cr.start, cr.end))
     for a, b in zip(cr, list(cr)[1:]):
-        if abs(a.end - b.start) > 1e-9 * size:
+        if not (abs(a.end - b.start) <= 1e-9 * size):
             return bad('pieces-not-joined', 'consecutive pieces %r / %r' % (a, b), 'joined', (a.end, b.start))
-    want = p.length(T0, T1) if T0 < T1 else p.length(T0, 1) + p.length(0, T1)
+    try:
+        want = p.length(T0, T1) if T0 < T1 else p.length(T0, 1) + p.length(0, T1)
+    except Exception as e:      # noqa
+        return bad('raises-' + type(e).__name__, 'Path.length(T0, T1) raised %r' % e, 'a length', repr(e))
     frac = (T1 - T0) if T0 < T1 else (1 - T0 + T1)
     lines_only = all(isinstance(s, sp.Line) for s in p)
     rep = 'repeated-segment' if name in ('there-and-back', 'rectangle-twice', 'two-equal-cubics') else 'length'
-    if abs(cr.length() - want) > 1e-7 * L:
+    if not (abs(cr.length() - want) <= 1e-7 * L):
         return bad(rep, 'length %r, length(T0,T1) = %r' % (cr.length(), want), want, cr.length())
     if lines_only:
         # on polylines T is the arc-length fraction, so everything is known in closed form
-        if abs(want - frac * L) > 1e-9 * L:
+        if not (abs(want - frac * L) <= 1e-9 * L):
             return bad(rep, 'length(T0,T1) = %r, arc-length fraction gives %r' % (want, frac * L), frac * L, want)
         for u in (0.25, 0.5, 0.75):
             T = (T0 + u * frac) % 1.0
-            if abs(cr.point(u) - p.point(T)) > 1e-6 * size:
+            if not (abs(cr.point(u) - p.point(T)) <= 1e-6 * size):
                 return bad('points', 'cropped.point(%r) = %r, path.point(%r) = %r' % (u, cr.point(u), T, p.point(T)), p.point(T), cr.point(u))
     return True
 
@@ -216,7 +219,7 @@ def run(ck):
             ck.case(fp=('path-reversed', name, warm), nontrivial=True)
             okr = abs(rv.length() - q.length()) <= 1e-9 * q.length() and rv.reversed() == q
             for T in [0, 0.1, 0.25, 1 / 3.0, 0.5, 0.77, 1]:
-                if abs(rv.point(T) - q.point(1 - T)) > 1e-6 * 12:
+                if not (abs(rv.point(T) - q.point(1 - T)) <= 1e-6 * 12):
                     okr = False
             if not okr:
                 ck.disagree(key='Path.reversed/%s' % ('after-queries' if warm else 'fresh'), site='svgpathtools/path.py:Path.reversed',
